@@ -151,17 +151,19 @@ theorem regPath_ok (h0 : Heap) (f : List Bytes → List Node → Except Fault (L
     cases ex with
     | none =>
       obtain ⟨ks', e1, hr, k1, o1, ok1⟩ := ih (pfx ++ [a]) [] frame' ⟨hk, by simpa [tokensO, tokensL] using ho, rfl⟩
-      exact ⟨_, e1, by simp [hr, bind, Except.bind], k1, by simpa [tokens] using o1, by simpa [nodeOK] using ok1⟩
+      exact ⟨.obj ⟨a, false, true, false⟩ ks', e1, by simp [hr, bind, Except.bind], k1, by simpa [tokens] using o1,
+        by simpa [nodeOK] using ok1⟩
     | some x =>
       cases x with
       | obj b ks =>
         obtain ⟨ks', e1, hr, k1, o1, ok1⟩ := ih (pfx ++ [b.name]) ks frame'
           ⟨hk, by simpa [tokensO, tokens] using ho, by simpa [nodeOKO, nodeOK] using hok⟩
-        exact ⟨_, e1, by simp [hr, bind, Except.bind], k1, by simpa [tokens] using o1, by simpa [nodeOK] using ok1⟩
-      | str .. | inaddr .. | list .. =>
-        all_goals
-          obtain ⟨ks', e1, hr, k1, o1, ok1⟩ := ih (pfx ++ [a]) [] frame' ⟨hk, by simpa [tokensL] using ho.tail, rfl⟩
-          exact ⟨_, e1, by simp [hr, bind, Except.bind], k1, by simpa [tokens] using o1, by simpa [nodeOK] using ok1⟩
+        exact ⟨.obj { b with specified := true } ks', e1, by simp [hr, bind, Except.bind], k1, by simpa [tokens] using o1,
+          by simpa [nodeOK] using ok1⟩
+      | _ =>
+        obtain ⟨ks', e1, hr, k1, o1, ok1⟩ := ih (pfx ++ [a]) [] frame' ⟨hk, by simpa [tokensL] using ho.tail, rfl⟩
+        exact ⟨.obj ⟨a, false, true, false⟩ ks', e1, by simp [hr, bind, Except.bind], k1, by simpa [tokens] using o1,
+          by simpa [nodeOK] using ok1⟩
 
 /-- C15: registration (repaired F14) succeeds and keeps the ownership invariant, whatever
     the tree looks like and whenever it happens -/
@@ -177,6 +179,146 @@ theorem register_no_fault (V : Variant) (h14 : V.f14 = true) (sv : Bool) (st : S
     obtain ⟨kids', e', hr, k1, o1, ok1⟩ := regPath_ok st.heap (regLeaf V sv name rk wh { heap := st.heap })
       (fun pfx kids frame hl => regLeaf_ok V h14 sv name rk wh { heap := st.heap } pfx hrk kids frame hl)
       revAnc.reverse [] st.kids [] ⟨hk, by simpa using ho, hok⟩
-    exact ⟨_, _, by simp [hr, bind, Except.bind], k1, by simpa using o1, ok1⟩
+    exact ⟨{ kids := kids', heap := e'.heap }, ⟨0, e'.hooks, e'.warns⟩, by simp [hr, bind, Except.bind], k1, by simpa using o1, ok1⟩
+
+
+/-! ### what a lookup finds after a registration -/
+
+/-- `nupsert` updates exactly the node a lookup of the same key finds (or creates it) -/
+theorem nfind_nupsert {α : Type} (name : Bytes) (kind : Nat) (mk : Option Node → Except Fault (Node × α))
+    (hkey : ∀ ex n' a, mk ex = .ok (n', a) →
+      (ex = none ∨ ∃ n, ex = some n ∧ (keyCmp name kind n.name n.kind == 0) = true) →
+      (keyCmp name kind n'.name n'.kind == 0) = true) :
+    ∀ kids kids' a, nupsert name kind mk kids = .ok (kids', a) →
+      ∃ n', mk (nfind name kind kids) = .ok (n', a) ∧ nfind name kind kids' = some n' := by
+  intro kids
+  induction kids with
+  | nil =>
+    intro kids' a h
+    simp only [nupsert] at h
+    obtain ⟨⟨n', a'⟩, hm, h2⟩ := bind_ok h
+    simp at h2
+    obtain ⟨rfl, rfl⟩ := h2
+    refine ⟨n', by simpa [nfind] using hm, ?_⟩
+    simp [nfind, hkey none n' a' hm (.inl rfl)]
+  | cons n ns ih =>
+    intro kids' a h
+    unfold nupsert at h
+    dsimp only at h
+    by_cases h0 : (keyCmp name kind n.name n.kind == 0) = true
+    · simp only [h0, if_true] at h
+      obtain ⟨⟨n', a'⟩, hm, h2⟩ := bind_ok h
+      simp at h2
+      obtain ⟨rfl, rfl⟩ := h2
+      refine ⟨n', by simpa [nfind, h0] using hm, ?_⟩
+      simp [nfind, hkey (some n) n' a' hm (.inr ⟨n, rfl, h0⟩)]
+    · simp only [h0, Bool.false_eq_true, if_false] at h
+      by_cases hlt : keyCmp name kind n.name n.kind < 0
+      · simp only [hlt, if_true] at h
+        obtain ⟨⟨n', a'⟩, hm, h2⟩ := bind_ok h
+        simp at h2
+        obtain ⟨rfl, rfl⟩ := h2
+        refine ⟨n', by simpa [nfind, h0, hlt] using hm, ?_⟩
+        simp [nfind, hkey none n' a' hm (.inl rfl)]
+      · simp only [hlt, if_false] at h
+        obtain ⟨⟨ns', a'⟩, hr, h2⟩ := bind_ok h
+        simp at h2
+        obtain ⟨rfl, rfl⟩ := h2
+        obtain ⟨n', hm, hf⟩ := ih ns' a' hr
+        exact ⟨n', by simpa [nfind, h0, hlt] using hm, by simpa [nfind, h0, hlt] using hf⟩
+
+/-- the value law of list registration (repaired F15): the file's items when the file
+    gave the list (even an empty one), the registered default otherwise -/
+theorem regList_value (V : Variant) (h15 : V.f15 = true) (name : Bytes) (dflt : List Bytes) (wh : Bool) (e e' : Eff)
+    (ex : Option Node) (n : Node) (h : regList V name dflt wh e ex = .ok (n, e')) :
+    ∃ b v cap, n = .list b v cap dflt ∧ b.specified = true ∧
+      (match ex with
+       | some (.list ob ov _ _) => b.present = ob.present ∧ v = (if ob.present then ov else dflt)
+       | _ => b.present = false ∧ v = dflt) := by
+  have fresh : ∀ ex', listFields name ex' = (⟨name, false, true, false⟩, [], false) →
+      regList V name dflt wh e ex' = .ok (n, e') → ∃ b v cap, n = .list b v cap dflt ∧ b.specified = true ∧ b.present = false ∧ v = dflt := by
+    intro ex' hq h'
+    simp [regList, hq, h15] at h'
+    obtain ⟨rfl, _⟩ := h'
+    exact ⟨_, _, _, rfl, rfl, rfl, rfl⟩
+  cases ex with
+  | none => obtain ⟨b, v, c, h1, h2, h3, h4⟩ := fresh none rfl h; exact ⟨b, v, c, h1, h2, h3, h4⟩
+  | some x =>
+    cases x with
+    | list ob ov oc od =>
+      by_cases hp : ob.present = true
+      · simp [regList, listFields, h15, hp] at h
+        obtain ⟨rfl, _⟩ := h
+        exact ⟨_, _, _, rfl, rfl, by simp [hp], by simp [hp]⟩
+      · have hp' : ob.present = false := by simpa using hp
+        simp [regList, listFields, h15, hp'] at h
+        obtain ⟨rfl, _⟩ := h
+        exact ⟨_, _, _, rfl, rfl, by simp [hp'], by simp [hp']⟩
+    | str _ _ _ _ _ => obtain ⟨b, v, c, h1, h2, h3, h4⟩ := fresh _ rfl h; exact ⟨b, v, c, h1, h2, h3, h4⟩
+    | inaddr _ _ _ _ _ => obtain ⟨b, v, c, h1, h2, h3, h4⟩ := fresh _ rfl h; exact ⟨b, v, c, h1, h2, h3, h4⟩
+    | obj _ _ => obtain ⟨b, v, c, h1, h2, h3, h4⟩ := fresh _ rfl h; exact ⟨b, v, c, h1, h2, h3, h4⟩
+
+/-- the value law of host/service registration (repaired F16) -/
+theorem regInaddr_value (V : Variant) (h16 : V.f16 = true) (name : Bytes) (dh ds : Option Bytes) (wh : Bool) (e e' : Eff)
+    (ex : Option Node) (n : Node) (h : regInaddr V name dh ds wh e ex = .ok (n, e')) :
+    ∃ b ho so, n = .inaddr b ho so dh ds ∧ b.specified = true ∧
+      (match ex with
+       | some (.inaddr ob oh os _ _) => b.present = ob.present ∧
+           (if ob.present then ho = oh ∧ so = os else ho.map (·.val) = dh ∧ so.map (·.val) = ds)
+       | _ => b.present = false ∧ ho.map (·.val) = dh ∧ so.map (·.val) = ds) := by
+  have hdup : ∀ (hp : Heap) (d : Option Bytes), (hp.dupOpt d).1.map (·.val) = d := by
+    intro hp d; cases d <;> simp [Heap.dupOpt, Heap.alloc]
+  have fresh : ∀ ex' b ho so, inaddrFields name ex' = (b, ho, so) → b.present = false →
+      regInaddr V name dh ds wh e ex' = .ok (n, e') →
+      ∃ b' ho' so', n = .inaddr b' ho' so' dh ds ∧ b'.specified = b.specified ∧ b'.present = false ∧
+        ho'.map (·.val) = dh ∧ so'.map (·.val) = ds := by
+    intro ex' b ho so hq hp h'
+    simp only [regInaddr, hq, h16, hp, Bool.true_and, Bool.not_false, if_true] at h'
+    split at h'
+    · simp at h'
+    · split at h'
+      · simp at h'
+      · simp at h'; obtain ⟨rfl, _⟩ := h'
+        exact ⟨_, _, _, rfl, rfl, rfl, hdup _ _, hdup _ _⟩
+  cases ex with
+  | none => obtain ⟨b, x, y, h1, h2, h3, h4⟩ := fresh none _ _ _ rfl rfl h; exact ⟨b, x, y, h1, h2, h3, h4⟩
+  | some x =>
+    cases x with
+    | inaddr ob oh os odh ods =>
+      by_cases hp : ob.present = true
+      · simp [regInaddr, inaddrFields, h16, hp] at h
+        obtain ⟨rfl, _⟩ := h
+        exact ⟨_, _, _, rfl, rfl, by simp [hp], by simp [hp]⟩
+      · have hp' : ob.present = false := by simpa using hp
+        obtain ⟨b, x, y, h1, h2, h3, h4⟩ := fresh (some (.inaddr ob oh os odh ods)) _ _ _ rfl hp' h
+        exact ⟨b, x, y, h1, h2, by simp [h3, hp'], by simp [hp', h4]⟩
+    | str _ _ _ _ _ => obtain ⟨b, x, y, h1, h2, h3, h4⟩ := fresh _ _ _ _ rfl rfl h; exact ⟨b, x, y, h1, h2, h3, h4⟩
+    | list _ _ _ _ => obtain ⟨b, x, y, h1, h2, h3, h4⟩ := fresh _ _ _ _ rfl rfl h; exact ⟨b, x, y, h1, h2, h3, h4⟩
+    | obj _ _ => obtain ⟨b, x, y, h1, h2, h3, h4⟩ := fresh _ _ _ _ rfl rfl h; exact ⟨b, x, y, h1, h2, h3, h4⟩
+
+/-- the value law of string registration: the text the node already carries (the file's
+    value when the file gave one), the registered default otherwise; typed cache consistent -/
+theorem regStr_value (V : Variant) (sv : Bool) (name : Bytes) (sub : SubTy) (dflt : Option Bytes) (wh : Bool) (e e' : Eff)
+    (pfx : List Bytes) (ex : Option Node) (n : Node) (h : regStr V sv name sub dflt wh e pfx ex = .ok (n, e')) :
+    ∃ b v p, n = .str b v dflt sub p ∧ b.specified = true ∧ cacheOK sv sub v p ∧
+      v = orElse' (match ex with | some (.str _ ov _ _ _) => ov | _ => none) dflt := by
+  have key : ∀ b value osub parsed, strFields name ex = (b, value, osub, parsed) → b.specified = true →
+      ∃ b' v p, n = .str b' v dflt sub p ∧ b'.specified = true ∧ cacheOK sv sub v p ∧ v = orElse' value dflt := by
+    intro b value osub parsed hq hsp
+    simp only [regStr, hq] at h
+    split at h
+    · simp at h
+    · rename_i r hr
+      obtain ⟨v1, v2⟩ := strParse_value _ _ _ _ _ _ _ _ hr
+      simp at h; obtain ⟨rfl, _⟩ := h
+      exact ⟨_, _, _, rfl, hsp, v2, v1⟩
+  cases ex with
+  | none => exact key _ _ _ _ rfl rfl
+  | some x =>
+    cases x with
+    | str b v d s p => exact key _ _ _ _ rfl rfl
+    | inaddr _ _ _ _ _ => exact key _ _ _ _ rfl rfl
+    | list _ _ _ _ => exact key _ _ _ _ rfl rfl
+    | obj _ _ => exact key _ _ _ _ rfl rfl
 
 end Iauthd.Conf
